@@ -601,6 +601,13 @@ def live_case(mon, rng, c, tier):
     fz = Dr.Frozen([m], prices.iloc[0], quote, wallet0, w.index[0])
     lo_m = -(-O.MIN_TICK // sp) * sp
     hi_m = (O.MAX_TICK // sp) * sp
+    sib = None
+    if rng.random() < 0.35:
+        # a sibling pool (other decimals / quote side) in the same process that sees the same Decimal price first
+        from ..decoy import UniSibling
+
+        sib = UniSibling(rng, w, m)
+        mon.cls(f"sibling/{sib.tag}")
 
     def bal(t):
         return fz.broker.get_token_balance(t)
@@ -646,6 +653,9 @@ def live_case(mon, rng, c, tier):
             mode = "whole-balance"
         removal = rng.choice(["full", "full", "no-collect", "two-parts", "merged"])
         fz.cur_tick = cur_tick
+        if sib is not None:
+            sib.poke(rng, w.index[bar], None, lo, up)
+            mon.hit("sibling-poke")
         _round_trip(
             mon, rng, Dr, w, m, fz, bal, to_pair, variant, removal, lo, up, rk, sp, base_amt, quote_amt, a0, a1, mode,
             sqrt_arg, tick_arg, price, d0, d1, q0, c, bar,
